@@ -423,8 +423,12 @@ func randOpt(r *rng, vid *int) optSpec {
 			return optSpec{fmt.Sprintf("opt typed %d:%d nil %d:%d", ty, id, ty2, *vid), am.Typed(val, nil, val2)}
 		}
 		return optSpec{fmt.Sprintf("opt typed %d:%d %d:%d", ty, id, ty2, *vid), am.Typed(val, val2)}
-	case k < 16:
+	case k < 15:
 		return optSpec{fmt.Sprintf("opt typedsub %d %d %s", ty, id, e2s(st)), am.TypedSubtype(val, st)}
+	case k < 16:
+		// a Value's own Arg(): NamedSubtype or TypedSubtype, decided by the name
+		return optSpec{fmt.Sprintf("opt value %s %d %d %s", e2s(n), ty, id, e2s(st)),
+			(&am.Value{Name: n, Type: reflect.TypeOf(val), Subtype: st, Value: reflect.ValueOf(val)}).Arg()}
 	case k < 17:
 		return optSpec{fmt.Sprintf("opt named %s nil", e2s(n)), am.Named(n, nil)}
 	case k < 18:
